@@ -1,7 +1,10 @@
 """Property id -> (check function, replay function)."""
 import conn_checks
+import write_checks
 
 CHECKS = {
     "C01": (conn_checks.c01, conn_checks.replay_framing),
+    "C02": (write_checks.c02, write_checks.replay_writing),
     "C07": (conn_checks.c07, conn_checks.replay_framing),
+    "C17": (write_checks.c17, write_checks.replay_writing),
 }
